@@ -210,6 +210,11 @@ def c04(tier, seed, work):
     # max-keys 1..n+1 x V1/V2, following the server's continuation
     walk_stage(rep, work, "mem-walks", "MC_List", list_consts(MaxSet=n, MaxLen=3, PrefixLen=1, Delims={0, 47}),
                ["mem"], "objects", invariants=["EmitInv"], view=None, emit=None, tlc_workers=8)
+    # the same walks with keys that need URL escaping / are not ASCII, and with keys whose bytes make the
+    # continuation tokens contain the characters in which base64 alphabets differ
+    for km in ("rich", "rich2"):
+        walk_stage(rep, work, "mem-walks-" + km, "MC_List", list_consts(MaxSet=2, MaxLen=2, PrefixLen=1, Delims={0, 47}),
+                   ["mem"], "objects", invariants=["EmitInv"], view=None, emit=None, tlc_workers=8, keys=km)
     # single pages under arbitrary markers (present, absent, inside a common prefix, beyond the end):
     # keys after the marker exactly; a common prefix the marker falls inside is optional
     tour_stage(rep, work, "mem-markers", "MC_List",
@@ -337,6 +342,13 @@ def c14(tier, seed, work):
                store_consts(Buckets={"bkt1"}, KeySetName="nest2", Bodies={"x1"}, PartBodies={"p1", "p2"},
                             MaxUploads=2, MaxList=1, Ghosts=False, OpNames=MP_OPS - {"PutObject", "GetObject"}),
                ["mem", "bolt"], small=True, invariants=["TypeOK"])
+    # three (thorough: four) uploads in flight on one key, any of them aborted or completed: the rest stay in
+    # initiation order
+    tour_stage(rep, work, "mp-lists-one-key", "MC_Store",
+               store_consts(Buckets={"bkt1"}, KeySetName="a", Bodies={"x1"}, PartBodies={"p1"}, PartNums={1},
+                            MaxUploads=4 if thorough else 3, MaxList=1, Ghosts=False,
+                            OpNames={"CreateBucket", "Initiate", "UploadPart", "Complete", "Abort", "ListUploads"}),
+               ["mem", "multimem"], small=True, invariants=["TypeOK"])
     # ListParts paging: part numbers with gaps, every max-parts, markers the server returns
     walk_stage(rep, work, "parts-walks", "MC_Store",
                store_consts(Buckets={"bkt1"}, KeySetName="a", PartNums={1, 2, 5} if not thorough else {1, 2, 3, 5},
@@ -361,6 +373,12 @@ def c11(tier, seed, work):
     common = dict(view=None, emit=None, invariants=["EmitInv", "Sound"])
     tour_stage(rep, work, "ranges", "MC_Range", dict(N=n, CfgName="plain"), ALL4, **common)
     tour_stage(rep, work, "ranges-single", "MC_Range", dict(N=n, CfgName="single"), ["singlemem", "singleos"], **common)
+    # ranges of objects met after a restart: the persistent backends reopened on their storage, and the single-bucket
+    # backend restarted with an empty metadata store (objects without a metadata record, as files put into the served
+    # directory by hand are)
+    tour_stage(rep, work, "ranges-after-restart", "MC_Range", dict(N=n, CfgName="plain"), ["bolt", "multios"], reopen=True, **common)
+    tour_stage(rep, work, "ranges-single-fresh-metadata", "MC_Range", dict(N=n, CfgName="single"), ["singlemem", "singleos"],
+               opts="freshmeta", reopen=True, **common)
     rep.assumptions += [
         "values >= 2^31 are one symbolic bound 'beyond the end' (objects are smaller); >= 2^63 is malformed",
         "multi-range headers: 416 or 501 (a clean refusal); whitespace variants: the correct 206 or 416; suffix 0 not generated",
@@ -520,6 +538,11 @@ def c15(tier, seed, work):
     tour_stage(rep, work, "reopen-rich-empty", "MC_Store",
                store_consts(Buckets={"bkt1"}, WithEmpty=True, OpNames=CORE_OPS | {"PutMetaB", "PostObject"}),
                ["bolt", "multios"], opts="boltsync", keys="rich", reopen=True, **st)
+    # the single-bucket backend restarted with an empty metadata store (its default configuration keeps metadata in
+    # memory): every object is then met without a record, exactly as files put into the served directory by hand
+    tour_stage(rep, work, "reopen-single-fresh-metadata", "MC_Store",
+               store_consts(CfgName="single", OpNames=CORE_OPS - {"ListBuckets"}),
+               ["singleos", "singlemem"], opts="freshmeta", reopen=True, **st)
     # keys spelled with the bytes of their bucket's name (b, bkt1, 1/t), with metadata
     tour_stage(rep, work, "reopen-bucket-named-keys", "MC_Store",
                store_consts(Buckets={"bkt1"}, KeySetName="bname", Bodies={"x1"}, OpNames=CORE_OPS | {"PutMetaB"}),
